@@ -53,6 +53,9 @@ def generate(rng, tier):
     for s, prof in plan:
         for tag, data in R.mutations(rng, s, streams, prof):
             cases.append(R.make_case(data, "01234", FLAVOUR, ORACLES, (tag, "mut:" + s.cls), base=s.data))
+    # structure-aware corruption of every located small-integer field; tamper-hook streams (semantic corruption)
+    cases += R.structured_cases(rng, tier, FLAVOUR, ORACLES, n_each=12 if thorough else 5)
+    cases += R.tamper_cases(rng, tier, FLAVOUR, ORACLES, budget=None if thorough else 6000)
     return cases
 
 
